@@ -86,6 +86,27 @@ def run(ctx) -> list[Inst]:
                 continue
             construct = f'(2) while {stmt_text(n.test)}: visited-set worklist'
             ok, why = _worklist(n)
+            if ok:
+                # the visited set starts EMPTY: a start asset that is reached again (cycle, self-link, or
+                # from another start asset) belongs to closure+ and must not be filtered out
+                vs = _visited_names(n)
+                for V in vs:
+                    for st in own_nodes(g.node):
+                        if isinstance(st, ast.Assign) and any(is_name(t, V) for t in st.targets) \
+                                and st.lineno < n.lineno:
+                            v = st.value
+                            empty = (isinstance(v, ast.Call) and isinstance(v.func, ast.Name)
+                                     and v.func.id in ('set', 'list', 'dict') and not v.args) or \
+                                (isinstance(v, (ast.List, ast.Set, ast.Dict, ast.Tuple)) and not getattr(v, 'elts', getattr(v, 'keys', [])))
+                            if not empty:
+                                ok = False
+                                why = (f"the visited set '{V}' is pre-filled with '{stmt_text(v, 60)}': an asset of the "
+                                       f"start set that is reached again (cycle / self-link / from another start "
+                                       f"asset) is dropped, the result falls below the transitive closure+")
+                if not ok:
+                    insts.append(Inst(RULE, g.short, '(2) visited set of the transitive closure starts empty',
+                                      'violation', msg=why, file=g.module.relpath, line=n.lineno, props=PROPS))
+                    continue
             insts.append(Inst(RULE, g.short, construct, 'ok' if ok else 'violation',
                               msg='' if ok else
                               (f"the loop navigates associations but is not a visited-guarded worklist ({why}): "
@@ -157,6 +178,20 @@ def _worklist(w: ast.While):
                     and n.func.attr in ('remove', 'discard', 'pop', 'clear'):
                 return False, f"'{V}' is shrunk inside the loop"
     return True, ''
+
+
+def _visited_names(w: ast.While):
+    out = set()
+    for n in ast.walk(w):
+        if isinstance(n, ast.If):
+            for sub in ast.walk(n.test):
+                if isinstance(sub, ast.Compare) and len(sub.ops) == 1 and isinstance(sub.ops[0], ast.NotIn) \
+                        and isinstance(sub.comparators[0], ast.Name):
+                    V = sub.comparators[0].id
+                    if any(isinstance(c, ast.Call) and isinstance(c.func, ast.Attribute) and c.func.attr in ('add', 'append')
+                           and is_name(c.func.value, V) for s in n.body for c in ast.walk(s)):
+                        out.add(V)
+    return out
 
 
 def _contains(stmt, node) -> bool:
